@@ -71,10 +71,13 @@ CLAIMED = {
              "(SDBFrames.lean, induction over the list) and on ANY TREE of write calls and call frames nested to any depth, each frame "
              "returning normally or failing (SDBNested.lean: mutual structural induction over the nested inductive Body, carrying what a "
              "run leaves behind beyond the observables — journal suffix whose reversal restores the state, younger revision ids only, "
-             "untouched outside accounts — on both sides); ApplyEvmMsg's EIP-3529 refund equals go-ethereum's for all inputs and never exceeds a fifth of the gas used. A "
+             "untouched outside accounts — on both sides), and finally with NO condition on the accounts (SDBObs.lean, "
+             "C03_any_body_simulates_reference_partial): any tree of writes, CreateAccount calls (where evm.create may make them) and "
+             "nested frames on ANY accounts — cached, first loaded inside a frame, absent and created inside a frame that is then "
+             "reverted (createObjectChange / resetObjectChange are undone too) — ends related to the reference; with sim_init this is "
+             "the whole body of a transaction without precompile calls; ApplyEvmMsg's EIP-3529 refund equals go-ethereum's for all inputs and never exceeds a fifth of the gas used. A "
              "cross-implementation oracle reports the first call on which Nibiru's and go-ethereum's real StateDBs answer differently.",
-        note="NOT proved: accounts first loaded or created inside a reverted frame (the frame theorems assume the touched accounts cached, "
-             "as after the interpreter's read-before-write), and the reference's Commit "
+        note="NOT proved: the reference's Commit against Nibiru's Commit "
              "(what Nibiru's Commit persists is proved under C04) — there the observational equality is established by the correspondence "
              "runs only. Trusted: Lean kernel; the interpreter (same code on both sides); harness; GethSpec's fidelity to go-ethereum "
              "is itself validated by differential execution, not proved. Precompile calls are excluded here (C04/C08).",
@@ -281,7 +284,9 @@ CLAIMED = {
              "precompile call, Snapshot / any sequence of writes on cached accounts / RevertToSnapshot restores every observable "
              "(C04_frame_revert_restores_partial, induction over the sequence), and so does a failed frame around ANY tree of writes and "
              "nested frames, returning or failing, to any depth — journal and revision list are exactly the old ones afterwards "
-             "(C04_nested_frame_revert_restores_partial, SDBNested.lean); for transactions WITHOUT a precompile call, after any "
+             "(C04_nested_frame_revert_restores_partial, SDBNested.lean), also when the body loads accounts for the first time, creates "
+             "accounts (which are gone again afterwards) or calls CreateAccount: every read of every address answers as at the "
+             "snapshot (C04_any_frame_revert_restores_partial, SDBObs.lean); for transactions WITHOUT a precompile call, after any "
              "write sequence Commit stores exactly the final view of every dirtied live account (nonce, code hash, whole-unibi balance, "
              "every slot), removes self-destructed ones and touches nothing else (C04_commit_*_partial, SDBCommit.lean, any number of "
              "accounts and slots); T1 fact: OnRunStart makes exactly three unconditional StateDB calls (cache context, journal entry, "
@@ -291,8 +296,8 @@ CLAIMED = {
              "journaled world + journaled multistore) evaluates the property on every implementation trace and reports any violation "
              "outside the listed findings.",
         note="Trusted: Lean kernel; harness; the reference oracle. Not repaired: the natural repair contradicts the pinned test "
-             "TestJournalReversion (asserts the dirty count after an intermediate flush). Partial: histories with CreateAccount inside a "
-             "reverted frame are covered by the correspondence only.",
+             "TestJournalReversion (asserts the dirty count after an intermediate flush). Partial: frames that contain a precompile call "
+             "(where the property is false) are covered by the counterexamples, the correspondence and the oracle only.",
         technique="Lean 4 counterexample proofs (decide on closed terms) + partial theorems + differential correspondence + reference-semantics oracle",
         ref="§7 C04"),
 }
